@@ -32,6 +32,11 @@ class P(vlib.Prop):
             "bodies are handed over as opaque readers (no length declared: sent chunked, ContentLength -1 at the server; "
             "identity bodies without declared length get limits at or below their size), method POST/PUT/PATCH/DELETE "
             "(the model has no method input; the declared length is an independent input of the model's server). "
+            "Replay: in EVERY case a tap below the package's round trippers records GetBody of the outgoing request before and "
+            "after the send (what a transport-level replay would send; compared with the model's w_rewind); ~45% of the "
+            "rewindable requests run over TCP with a fault: warm-up on a keep-alive connection, then the server receives the "
+            "request completely and drops the reused connection, net/http replays it (Idempotency-Key) on a new one; both "
+            "attempts are recorded. "
             "Large (sizes only), stratified: for every type, every level class (flate default/1/6/9/huffman-only, zstd "
             "one level per encoder speed class 0/3/7/11) first with a body > 128 KiB (2^18 +-1, 135-600 kB, 512 KiB or "
             "4 MiB), then bodies 2^15, 2^16, 2^17, 2^18 +-1, 4 MiB, random sizes up to 200 kB; limits n-1, n, n+1, n/10, "
@@ -39,7 +44,7 @@ class P(vlib.Prop):
             "sent by a non-compressing client, half of them chunked. For every case the five codec libraries are called directly to tabulate "
             "enc(body) at the configured/default/zero level and dec(limited raw body) for all five codecs; the Coq model "
             "(client, server / lserver) is evaluated on these tables with vm_compute and compared with: client refused or "
-            "not, Content-Encoding values, body and declared length on the wire, outcome (handler ran / rejected / panicked), status, "
+            "not, Content-Encoding values, body, declared length and GetBody content of the request on the wire, outcome (handler ran / rejected / panicked), status, "
             "Content-Encoding values and ContentLength seen by the handler, bytes read by the handler, error class "
             "(nil / MaxBytesError / other). A case is non-trivial when the client was built and the request carries an "
             "encoding or a non-empty body or was not handled; distinct = distinct case terms. Plus 6 types x 8 goroutines "
